@@ -1,5 +1,5 @@
 (** * C10 -- programs run in order, on the right qubits *)
-From QV Require Import Interp C10T C10T2.
+From QV Require Import Interp Sym Reg C10T C10T2 C10T3.
 
 Theorem C10_numbering : C10_numbering_stmt.
 Proof. exact C10_numbering_proof. Qed.
@@ -12,3 +12,7 @@ Print Assumptions C10_in_order.
 Theorem C10_macro : C10_macro_stmt.
 Proof. exact C10_macro_proof. Qed.
 Print Assumptions C10_macro.
+
+Theorem C10_straight_line : C10_straight_line_stmt.
+Proof. exact C10_straight_line_proof. Qed.
+Print Assumptions C10_straight_line.
